@@ -179,6 +179,10 @@ def run(ctx, chk):
     import rules as _rnb
     import ownership as _Onb
     _rnb.check_null_belief(chk, "C07.null-belief", prog, _Onb.PathCache(prog, eff))
+    chk.rule("C07.getters", "each field accessor returns, on every path, the value of the field it stands for (resolved through the struct "
+             "types): no guard, clamp or second opinion between the stored value and the caller (size and serialize read the same counts, lengths and widths)")
+    import rules as _rg
+    _rg.check_field_getters(chk, "C07.getters", prog, eff, names=('cbor_string_length', 'cbor_bytestring_length', 'cbor_string_handle', 'cbor_bytestring_handle', 'cbor_string_chunk_count', 'cbor_bytestring_chunk_count', 'cbor_string_chunks_handle', 'cbor_bytestring_chunks_handle', 'cbor_array_size', 'cbor_map_size', 'cbor_array_handle', 'cbor_map_handle', 'cbor_tag_value', 'cbor_ctrl_value', 'cbor_float_get_width', 'cbor_int_get_width', 'cbor_typeof'))
     chk.exhaustive = True
 
 
